@@ -174,6 +174,12 @@ func unambiguous(sh *gen.C12Sheet, v *view) bool {
 			pat, budget := pattern(sh, mi, kind)
 			for _, h := range ref.C12Hits(seq, []byte(pat), budget) {
 				if !want[[3]int{mi, kind, h.Pos}] {
+					// the forward primer of ANOTHER marker, a variant of this one, matching exactly
+					// where a constructed forward site lies: that marker has no reverse site in the
+					// read (any such hit ends the loop with "ambiguous"), it cannot be the amplified one
+					if sh.ClosePrimers && (kind == kFwd || kind == kCFwd) && sameSiteOfAnotherMarker(want, mi, kind, h.Pos, len(sh.Markers)) {
+						continue
+					}
 					return false
 				}
 				found++
@@ -181,6 +187,15 @@ func unambiguous(sh *gen.C12Sheet, v *view) bool {
 		}
 	}
 	return found == len(want)
+}
+
+func sameSiteOfAnotherMarker(want map[[3]int]bool, mi, kind, pos, nm int) bool {
+	for o := 0; o < nm; o++ {
+		if o != mi && want[[3]int{o, kind, pos}] {
+			return true
+		}
+	}
+	return false
 }
 
 // ---------------------------------------------------------------------------
